@@ -31,7 +31,7 @@ def plan(tier, seed):
 
 
 def floors(tier):
-    return {"evaluations": 100, "strata": ["default-scale/svg", "default-scale/tikz", "own-scale/svg", "own-scale/tikz", "repeated-export", "shared-data-objects", "value-equal-twin", "several-timelines-without-options"],
+    return {"evaluations": 100, "strata": ["default-scale/svg", "default-scale/tikz", "own-scale/svg", "own-scale/tikz", "repeated-export", "shared-data-objects", "value-equal-twin", "several-timelines-without-options", "shared-options-object"],
             "events": {"history_processes": 30, "reference_processes": 60, "noninterference": 100}, "distinct_nontrivial": 30, "max_inconclusive_frac": 0.05}
 
 
@@ -74,12 +74,27 @@ def gen_history(rng):
                     s["options"]["layerGap"] = rng.choice([20, 45])
             specs[k] = s
             share[str(k)] = j
+    # the caller re-uses ONE options dict object (plain values, no scale object in it) for two timelines with their own data
+    share_options = {}
+    for k in range(1, nt):
+        if str(k) not in share and k not in share.values() and rng.random() < 0.35:
+            j = rng.randrange(k)
+            oj = specs[j]["options"]
+            if oj is None or "scale" in oj or specs[k]["options"] is None or "scale" in specs[k]["options"] or str(j) in share_options:
+                continue
+            if any(isinstance(v, dict) and "fn" in v for v in oj.values()) or "domain" in oj:
+                continue  # functions / domains are tied to j's own data
+            kinds = lambda sp: set(type(d["time"]).__name__ in ("int", "float") for d in sp["data"])
+            if kinds(specs[j]) != kinds(specs[k]):
+                continue
+            specs[k]["options"] = copy.deepcopy(oj)
+            share_options[str(k)] = j
     # twins: equal geometry, texts and options, but built from their own datum dicts, which differ in the field the colour
     # functions read (whatever is remembered by VALUE of the geometry must not carry another timeline's data)
     for k in range(1, nt):
-        if str(k) not in share and k not in share.values() and rng.random() < 0.25:
+        if str(k) not in share and k not in share.values() and str(k) not in share_options and k not in share_options.values() and rng.random() < 0.25:
             j = rng.randrange(k)
-            if str(j) in share:
+            if str(j) in share or str(j) in share_options or j in share_options.values():
                 continue
             s = copy.deepcopy(specs[j])
             if s["options"] is None:
@@ -103,7 +118,7 @@ def gen_history(rng):
     ops.append(["export", 0])
     if rng.random() < 0.5:
         ops.append(["export", rng.randrange(nt)])
-    return {"specs": specs, "backends": backends, "ops": ops, "share_data": share, "twins": twins}
+    return {"specs": specs, "backends": backends, "ops": ops, "share_data": share, "twins": twins, "share_options": share_options}
 
 
 def run_proc(h, timeout=600, hashseed="0"):
@@ -183,6 +198,9 @@ def run_history(ctx, h, refs):
             ctx.stratum("shared-data-objects", generated=1, judged=1, held=1)
         if sum(1 for s_ in h["specs"] if s_["options"] is None) >= 2 and spec["options"] is None:
             ctx.stratum("several-timelines-without-options", generated=1, judged=1, held=1)
+        so = h.get("share_options") or {}
+        if str(k) in so or k in so.values():
+            ctx.stratum("shared-options-object", generated=1, judged=1, held=1)
         if k in (h.get("twins") or []):
             ctx.stratum("value-equal-twin", generated=1, judged=1, held=1)
         ctx.judge(stratum, HELD, None, nontrivial=nontriv, dig=digest([h, e["op"]]))
